@@ -105,12 +105,13 @@ func cmdCheck(args []string) int {
 		return 2
 	}
 	opts := &Options{Tier: *tier, Solver: "z3-new", TimeoutMS: 60000, CrossSolvers: []string{"z3"}, CrossEvery: 25,
-		WitnessPerHarness: 3, Seed: seed, Verbose: *verbose, OnlyHarness: *only, LogDir: *logdir}
+		WitnessPerHarness: 3, Seed: seed, Verbose: *verbose, OnlyHarness: *only, LogDir: *logdir, HarnessWall: 8 * time.Minute}
 	if *tier == "thorough" {
 		opts.TimeoutMS = 300000
 		opts.CrossEvery = 5
 		opts.CrossSolvers = []string{"z3", "cvc5"}
 		opts.WitnessPerHarness = 12
+		opts.HarnessWall = 3 * time.Hour
 	}
 	if *logdir != "" {
 		os.MkdirAll(*logdir, 0755)
